@@ -34,9 +34,10 @@ package couchbase
 //@ props C19 C13
 //@ requires h != nil && h.config != nil && h.client != nil && ctx != nil
 //@ loop 1
-//@   modifies calls(couchbase.Client.Ping), calls(select.case), chan(uninterp("ctx.done", ctx)), chan(ticker.C)
+//@   invariant.same_ctx[C19] forall i int :: old(ncalls("couchbase.(*healthCheck).performHealthCheck")) <= i && i < ncalls("couchbase.(*healthCheck).performHealthCheck") ==> argat("couchbase.(*healthCheck).performHealthCheck", i, ctx) == ctx && argat("couchbase.(*healthCheck).performHealthCheck", i, h) == h
+//@   modifies calls(couchbase.Client.Ping), calls(select.case), chan(uninterp("ctx.done", ctx)), chan(ticker.C), calls("couchbase.(*healthCheck).performHealthCheck")
 //@ ensures.stopped[C19,C13] darg(select.case, dcalls(select.case) - 1, index) == 0
-//@ modifies calls(couchbase.Client.Ping), calls(select.case), chan(uninterp("ctx.done", ctx))
+//@ modifies calls(couchbase.Client.Ping), calls(select.case), chan(uninterp("ctx.done", ctx)), calls("couchbase.(*healthCheck).performHealthCheck")
 
 //@ func (*healthCheck).Stop
 //@ props C19 C13
